@@ -6,19 +6,32 @@ Import ListNotations.
 (* is the (real, loaded) program inside the class covered by C10_rtc_bound_partial? *)
 Definition in_class (prog : program) : bool := cascade_guardedb prog.
 
-(* case = (program, [(live instances before the event, internal events processed by the real
-   run_to_completion)]).  The real interpreter additionally emits one UnhandledEvent per internal
-   event nobody matches, hence the factor 2. *)
-Definition check_bound (c : program * list (nat * nat)) : bool :=
-  let '(prog, obs) := c in
-  let '(certs, cleans) := compute_certs prog (S (length prog)) in
-  negb (cascade_cert_ok prog certs cleans) ||
-  forallb (fun ls => Nat.leb (snd ls) (2 * rtc_bound prog certs (fst ls) 1 + 2)) obs.
+(* the same with a given number of weight passes (= depth of the StartFlow graph + 1 suffices);
+   fewer passes can only reject more *)
+Definition in_class_n (n : nat) (prog : program) : bool := cascade_cert_ok prog (compute_certs prog n).
 
-Definition bound_of (c : program * nat) : nat :=
-  let '(prog, lv) := c in
-  let '(certs, cleans) := compute_certs prog (S (length prog)) in
-  rtc_bound prog certs lv 1.
+(* why not: 0 accepted; 1 a flow does not start with `match StartFlow` / static stacks inconsistent or
+   the cascade graph has a cycle without external match; 2 no weights (StartFlow cycle without
+   external match); 3 side conditions for activated flows *)
+Definition class_reason_n (n : nat) (prog : program) : nat :=
+  let certs := compute_certs prog n in
+  if cascade_cert_ok prog certs then 0
+  else if negb (forallb (fun ec => check_cert true (fst ec) (f_rank (snd ec)) (f_stk (snd ec))) (combine prog certs)) then 1
+  else if negb (Cascade.forallb_i (fun f es => match nth_error certs f with Some ct => check_w prog certs f es ct | None => false end) prog 0) then 2
+  else 3.
+
+(* case = (program, [(live heads, live instances before the event, internal events processed by the
+   real run_to_completion)]).  The real interpreter additionally emits one UnhandledEvent per
+   internal event nobody matches, hence the factor 2. *)
+Definition reason_is (n k : nat) (prog : program) : bool := Nat.eqb (class_reason_n n prog) k.
+
+Definition check_bound_n (n : nat) (c : program * list (nat * nat * nat)) : bool :=
+  let '(prog, obs) := c in
+  let certs := compute_certs prog n in
+  negb (cascade_cert_ok prog certs) ||
+  forallb (fun ls => let '(lh, lv, steps) := ls in Nat.leb steps (2 * rtc_bound prog certs lh lv 1 + 2)) obs.
+
+Definition check_bound (c : program * list (nat * nat * nat)) : bool := check_bound_n (S (length (fst c))) c.
 
 (* Restart decision of the real _abort_flow for a flow that fails by itself, against the model's
    fail_inst under the repaired guard.  case = (activated, new_instance_started, deactivate_flow,
@@ -26,10 +39,23 @@ Definition bound_of (c : program * nat) : nat :=
 Definition model_restarts (act nis deact was_started : bool) : bool :=
   if deact then false
   else
-    let c := {| c_flow := 0; c_pos := 0; c_catch := []; c_status := if was_started then CStarted else CStarting;
-                c_act := act; c_restarted := nis; c_inert := false |} in
-    match r_left (fail_inst true c false nis 0 []) with [] => false | _ => true end.
+    let c := {| c_flow := 0; c_heads := []; c_status := if was_started then CStarted else CStarting;
+                c_act := act; c_restarted := nis; c_forked := false |} in
+    match r_left (fail_inst c (guard_ok true c) false nis) with [] => false | _ => true end.
 
 Definition check_restart (c : bool * bool * bool * bool * bool) : bool :=
   let '(act, nis, deact, was_started, observed) := c in
   Bool.eqb (model_restarts act nis deact was_started) observed.
+
+(* one evaluation per program: 0 = accepted by the certificate and every observation is within the
+   bound; 100 = accepted, an observation exceeds 2 * rtc_bound + 2; 1 / 2 / 3 = rejected (see
+   class_reason_n) *)
+Definition classify_n (n : nat) (c : program * list (nat * nat * nat)) : nat :=
+  let '(prog, obs) := c in
+  let certs := compute_certs prog n in
+  if cascade_cert_ok prog certs then
+    if forallb (fun ls => let '(lh, lv, steps) := ls in Nat.leb steps (2 * rtc_bound prog certs lh lv 1 + 2)) obs
+    then 0 else 100
+  else if negb (forallb (fun ec => check_cert true (fst ec) (f_rank (snd ec)) (f_stk (snd ec))) (combine prog certs)) then 1
+  else if negb (Cascade.forallb_i (fun f es => match nth_error certs f with Some ct => check_w prog certs f es ct | None => false end) prog 0) then 2
+  else 3.
